@@ -65,6 +65,9 @@ type Conn struct {
 	Closed bool
 	// RemovedAt is the sequence number at which RemoveRemoteDeviceConnection returned (0 = connected)
 	RemovedAt uint64
+	// RemoveBeganAt: the sequence number at which it was called (the removal proper: after the wait
+	// for the lifecycle lock and, with QuiesceOwnTraffic, for the connection's own traffic)
+	RemoveBeganAt uint64
 	OnWrite   func(s *Sent)
 	Misbehave bool // allow reordering within the connection
 	Handling  bool
@@ -337,7 +340,10 @@ func (n *Node) DisconnectThen(peerName string, then func()) bool {
 		w.Probe("removal-waited-for-own-traffic")
 		simrt.WaitUntil("own-traffic-over:"+c.Name, func() bool { return !c.InFlight })
 	}
-	w.Logf("disconnect %s begin", c.Name)
+	c.RemoveBeganAt = w.Logf("disconnect %s begin", c.Name)
+	if t := simrt.Self(); t != nil {
+		t.OpSeq = c.RemoveBeganAt
+	}
 	n.Dev.RemoveRemoteDeviceConnection(c.Ski)
 	c.RemovedAt = w.Logf("disconnect %s returned", c.Name)
 	if then != nil {
